@@ -72,5 +72,44 @@ def opSame : Handler := fun args impl =>
     | _, _ => bad
   | _ => bad
 
-def ops : List (String × Handler) := [("pm.factor", opFactor), ("pm.factor.same", opSame)]
+/-! ### per-stage correspondence (private functions reached through `poly_mod::verif`): the stage
+outputs are compared textually with the model; the property-level oracle is applied to the whole
+routine (`pm.factor`), so these ops answer `skip:stage-correspondence-only`. -/
+
+def opSqfree : Handler := fun args _ =>
+  match args with
+  | [fs, ps, us] => match parseInts? fs, ps.toInt?, us.toNat? with
+    | some f, some p, some pusize =>
+      if p ≤ 1 then bad else
+      (NTV.Driver.PM.showM showFactors (squarefree f p pusize), "skip:stage-correspondence-only")
+    | _, _, _ => bad
+  | _ => bad
+
+def opDegree : Handler := fun args _ =>
+  match args with
+  | [fs, ps] => match parseInts? fs, ps.toInt? with
+    | some f, some p =>
+      if p ≤ 1 then bad else
+      (NTV.Driver.PM.showM showFactors (degree f p), "skip:stage-correspondence-only")
+    | _, _ => bad
+  | _ => bad
+
+def showPolys (l : List (List Int)) : String :=
+  if l.isEmpty then "_" else ";".intercalate (l.map showInts)
+
+def opFsplit : Handler := fun args _ =>
+  match args with
+  | [fs, ps, dstr, ds] => match parseInts? fs, ps.toInt?, dstr.toNat? with
+    | some f, some p, some d =>
+      if p ≤ 1 then bad else
+      let model := match finalSplit f p d (parseChunks ds) with
+        | .ok (l, []) => showPolys l
+        | .ok (_, rest) => s!"model left {rest.length} drawn chunks unused"
+        | .error e => e
+      (model, "skip:stage-correspondence-only")
+    | _, _, _ => bad
+  | _ => bad
+
+def ops : List (String × Handler) :=
+  [("pm.sqfree", opSqfree), ("pm.degree", opDegree), ("pm.fsplit", opFsplit), ("pm.factor", opFactor), ("pm.factor.same", opSame)]
 end NTV.Driver.C08
